@@ -17,6 +17,7 @@ for sid in ids:
         hit = any(l.startswith("VIOLATION") for l in r.stdout.splitlines())
     finally:
         subprocess.run(["git", "-C", "/repo", "reset", "-q"]); subprocess.run(["git", "-C", "/repo", "checkout", "HEAD", "--", "."])
+        subprocess.run("find /repo/src -name '*.rej' -delete -o -name '*.orig' -delete", shell=True)      # leftovers of a patch that did not apply
         left = subprocess.run(["git", "-C", "/repo", "status", "--porcelain", "--untracked-files=no"], capture_output=True, text=True).stdout.strip()
         if left:
             print("!! /repo not restored:", left); sys.exit(2)
